@@ -57,7 +57,7 @@ func (r *run) classify(err error) *ErrC {
 		if ue, ok := root.(*UserErr); ok {
 			c.Root = fmt.Sprintf("user:%d:%d", ue.Fn, ue.X)
 		} else if pe, ok := root.(dig.PanicError); ok {
-			if up, ok := pe.Panic.(UserPanic); ok {
+			if up, ok := asUserPanic(pe.Panic); ok {
 				c.Root = fmt.Sprintf("panic:%d:%d", up.Fn, up.X)
 			}
 		}
